@@ -455,10 +455,11 @@ def run_attr_history(ctx, model, scico):
     from scico import linop, loss
 
     rng = ctx.rng
-    kinds = ["l2ball", "l1ml2", "hubers", "hubern", "l21axis", "scaled", "loss.scale", "loss.y", "sql2.y", "sql2.W", "sql2.scale", "proxavg"]
+    kinds = ["l2ball", "l1ml2", "hubers", "hubern", "l21axis", "scaled", "loss.scale", "loss.y", "sql2.y", "sql2.W", "sql2.scale", "proxavg",
+             "tv.circular", "tv.axes"]
     for kind in kinds * ctx.n(2, 8):
         cplx = bool(rng.random() < 0.25) and kind not in ("proxavg",)
-        shape = (int(rng.integers(2, 5)),) if kind != "l21axis" else (int(rng.integers(2, 4)), int(rng.integers(2, 4)))
+        shape = (int(rng.integers(2, 5)),) if kind not in ("l21axis", "tv.circular", "tv.axes") else (int(rng.integers(2, 4)), int(rng.integers(2, 4)))
         a = G.dy(rng, shape, cplx)
         x = snp.array(a)
         nrm = float(np.sqrt(np.sum(np.abs(a) ** 2)))
@@ -521,6 +522,26 @@ def run_attr_history(ctx, model, scico):
             fresh = lambda: loss.SquaredL2Loss(y=snp.array(yy), scale=ss, W=mkW(ww))  # noqa: E731
             formula = float(ss * np.sum(ww * np.abs(yy - a) ** 2))
             mod = _model(model, "feval", fn="sql2loss", cplx=cplx, scale=f2b(ss), w=fs2b(ww), y=fs2b(G.il(yy, cplx)), ax=fs2b(G.il(a, cplx)))
+        elif kind in ("tv.circular", "tv.axes"):
+            # (after 06ebce8: the cached finite-difference and prox operators are rebuilt when circular / axes change)
+            iso = bool(rng.integers(2))
+            cls = F.IsotropicTVNorm if iso else F.AnisotropicTVNorm
+            dt = np.complex128 if cplx else np.float64
+            c1 = bool(rng.integers(2))
+            ax1 = [None, (0,), (1,), (0, 1)][int(rng.integers(4))]
+            if kind == "tv.circular":
+                attr, new, c2, ax2 = "circular", not c1, not c1, ax1
+            else:
+                ax2 = [a_ for a_ in [(0,), (1,), (0, 1), (-1,)] if a_ != ax1][int(rng.integers(3))]
+                attr, new, c2 = "axes", ax2, c1
+            obj = cls(circular=c1, axes=ax1, input_dtype=dt, input_shape=shape if rng.random() < 0.5 else None)
+            fresh = lambda: cls(circular=c2, axes=ax2, input_dtype=dt)  # noqa: E731
+            axn = (0, 1) if ax2 is None else tuple(sorted(a_ % 2 for a_ in ax2))
+            ds = np.stack([_np_fd(a, ax, c2) for ax in axn])
+            formula = float(np.sum(np.sqrt(np.sum(np.abs(ds) ** 2, axis=0)))) if iso else float(np.sum(np.abs(ds)))
+            comps = [fs2b(a.real.ravel()), fs2b(a.imag.ravel())] if cplx else [fs2b(a.ravel())]
+            mod = _model(model, "feval", fn="tv", cplx=cplx, iso=iso, circular=c2, shape=list(shape), axes=list(axn), comps=comps)
+            _ = _impl(lambda: np.asarray(obj.prox(x, 0.5)))  # the prox operators are cached as well
         else:
             obj, attr, new = F.ProximalAverage([F.L1Norm(), F.SquaredL2Norm()], alpha_list=[0.5, 0.5]), "alpha_list", [0.25, 0.75]
             fresh = lambda: F.ProximalAverage([F.L1Norm(), F.SquaredL2Norm()], alpha_list=[0.25, 0.75])  # noqa: E731
@@ -533,6 +554,16 @@ def run_attr_history(ctx, model, scico):
         ctx.case({k_: case[k_] for k_ in ("attr-history", "attribute", "cplx", "shape")}, ("attr-history", kind, cplx))
         ctx.count("attr-history:" + kind)
         _check(ctx, "feval.attr_history." + kind, case, impl, mod if mod is not None else impl, formula)
+        if kind.startswith("tv."):
+            # prox of the reused object against a fresh object (the TV prox is an approximation: only their agreement is checked)
+            pr = _impl(lambda: G.il(np.asarray(obj.prox(x, 0.5)), cplx))
+            pf = _impl(lambda: G.il(np.asarray(fresh().prox(x, 0.5)), cplx))
+            ctx.count("attr-history:tv prox vs fresh object")
+            if pr[0] != pf[0] or (pr[0] == "ok" and not common.allclose(pr[1], pf[1], rtol=1e-9)):
+                ctx.disagree("feval.attr_history.tvprox", case, [pr[0], None if pr[0] != "ok" else np.asarray(pr[1]).tolist()],
+                             [pf[0], None if pf[0] != "ok" else np.asarray(pf[1]).tolist()],
+                             oracle=lambda _c, attr=attr, pr=pr, pf=pf: {"what": f"after assigning a new `{attr}` the TV prox differs from the prox of a fresh object built with that value",
+                                                                         "reused": None if pr[0] != "ok" else np.asarray(pr[1]).tolist(), "fresh": None if pf[0] != "ok" else np.asarray(pf[1]).tolist()})
         if impl[0] == "ok" and fr[0] == "ok" and not (common.close(impl[1], fr[1], k=64, rtol=1e-9) or (np.isinf(impl[1]) and np.isinf(fr[1]))):
             ctx.disagree("feval.attr_history.fresh", case, impl[1], fr[1],
                          oracle=lambda _c, impl=impl, fr=fr, kind=kind, attr=attr: {"what": f"after assigning a new `{attr}` the object evaluates differently from a fresh object built with that value",
@@ -1170,7 +1201,7 @@ def findings(ctx, model):
     ctx.case({"regression": "metric-blockarray"}, ("regression", "metric-blockarray"))
     _check(ctx, "metric.block.mse", {"regression": "metric-blockarray"}, impl, mod, 1.25 / 3)
     ctx.known_finding("metric-blockarray", False)
-    # known finding tvnorm-stale-operator: the operator cached by TVNorm.__call__ ignores a later change of `circular` / `axes`
+    # finding tvnorm-stale-operator (repaired 06ebce8): the operator cached by TVNorm.__call__ ignored a later change of `circular` / `axes`
     import scico.functional as F
 
     x = snp.array(np.array([[1.0, -2.0, 3.0], [0.5, 4.0, -1.0]]))
@@ -1179,10 +1210,12 @@ def findings(ctx, model):
     tv.circular = False
     v1 = float(tv(x))
     fresh = float(F.AnisotropicTVNorm(circular=False, input_dtype=np.float64)(x))
-    ctx.known_finding("tvnorm-stale-operator", v0 == 41.0 and v1 == 41.0 and fresh == 27.0)
-    if not (v1 == 41.0 or v1 == fresh):
-        ctx.violation({"kind": "failing-input", "op": "tvnorm attribute history", "x": np.asarray(x).tolist(), "after circular=False": v1, "fresh": fresh}, True,
-                      "TVNorm after `circular = False` is neither the recorded stale value nor the value of a fresh object")
+    ctx.known_finding("tvnorm-stale-operator", False)  # repaired by 06ebce8: regression case
+    ctx.case({"regression": "tvnorm-stale-operator"}, ("regression", "tvnorm-stale-operator"))
+    if not (v0 == 41.0 and v1 == fresh == 27.0):
+        ctx.violation({"kind": "failing-input", "op": "tvnorm attribute history", "x": np.asarray(x).tolist(), "circular=True": v0,
+                       "after circular=False": v1, "fresh": fresh}, True,
+                      "TVNorm after `circular = False` differs from a fresh object (regression of 06ebce8)")
 
 
 def search(ctx, model, why):
@@ -1219,7 +1252,7 @@ def search(ctx, model, why):
         elif cls in ("SetDistance", "SquaredSetDistance"):
             pick += ["dist"]
         elif cls == "TVNorm":
-            pick += ["tv", "tvh"]
+            pick += ["tv", "tvh", "attr"]
         elif cls == "ProximalAverage":
             pick += ["proxavg"]
         elif cls in ("SquaredL2Loss", "SquaredL2AbsLoss", "SquaredL2SquaredAbsLoss", "PoissonLoss"):
